@@ -50,6 +50,15 @@ def cogas (η ratio : Rat → Rat) (rated lhv P : Rat) : CogasPoint :=
   let gas := ratio (P / rated) * P
   { fuel := P / eff / (lhv * 1000) / 1000, eff := eff, gas := gas, steam := P - gas }
 
+/-- The gas turbine's share at a load: that of the two given power curves at that load (D106); where neither turbine
+delivers power there is no share of its own and the share of the curve points holds (`fb`). -/
+def shareOf (g s fb : Rat → Rat) (l : Rat) : Rat :=
+  if g l + s l = 0 then fb l else g l / (g l + s l)
+
+/-- As found (before D106): the share was interpolated from point to point - here linearly between two neighbouring points
+`(l0, r0)`, `(l1, r1)` of the share curve, which is what any interpolation of the *shares* does on collinear power curves. -/
+def shareLegacyLinear (l0 r0 l1 r1 l : Rat) : Rat := r0 + (l - l0) / (l1 - l0) * (r1 - r0)
+
 /-- As found (D7): the "power" of the gas turbine was the share itself. -/
 def cogasGasLegacy (ratio : Rat → Rat) (rated P : Rat) : Rat := ratio (P / rated)
 
